@@ -18,7 +18,48 @@ use crate::rng::Rng;
 use crate::sha256;
 use crate::sx::Sx;
 
-pub const NUM_PUZZLES: usize = 7;
+/// constants quoted inside the members 7.. of the puzzle family: canonical CLVM integers on both
+/// sides of every byte-length boundary an allocator may store inline (what tree hashing, interning
+/// and serialization special-case)
+pub const PUZZLE_CONSTS: &[&[u8]] = &[
+    &[0x7f],
+    &[0x00, 0x80],
+    &[0x00, 0xff],
+    &[0x7f, 0xff],
+    &[0x00, 0x80, 0x00],
+    &[0x00, 0x80, 0x01],
+    &[0x7f, 0xff, 0xff],
+    &[0x00, 0x80, 0x00, 0x00],
+    &[0x00, 0x80, 0x00, 0x01],
+    &[0x03, 0xff, 0xff, 0xff],
+    &[0x04, 0x00, 0x00, 0x00],
+    &[0x7f, 0xff, 0xff, 0xff],
+    &[0x00, 0x80, 0x00, 0x00, 0x00],
+    &[0x00, 0xff, 0xff, 0xff, 0xff],
+    &[0x01, 0x00, 0x00, 0x00, 0x00],
+    &[0x80],
+    &[0xff],
+];
+pub const NUM_PUZZLES: usize = 7 + PUZZLE_CONSTS.len();
+
+/// puzzle index for a new coin: identity, the small quote family, the path puzzles and the
+/// boundary-constant quote family each get a fixed share
+pub fn pick_puzzle(rng: &mut Rng) -> usize {
+    match rng.below(100) {
+        0..=24 => 0,
+        25..=54 => 1 + rng.usize(4),
+        55..=69 => PATH_FIRST + rng.usize(2),
+        _ => 7 + rng.usize(PUZZLE_CONSTS.len()),
+    }
+}
+
+fn puzzle_const(k: usize) -> Vec<u8> {
+    if k >= 7 {
+        PUZZLE_CONSTS[k - 7].to_vec()
+    } else {
+        vec![k as u8]
+    }
+}
 /// puzzles 5 and 6 are bare environment paths: they hold no quote, so a bundle that uses only
 /// them can be free of the atom 1 altogether (what a tree-interning cost de-duplicates against)
 pub const PATH_FIRST: usize = 5;
@@ -37,7 +78,7 @@ pub fn puzzle(k: usize) -> Sx {
         // (c (q . (1 . k)) 1)
         Sx::list(&[
             Sx::atom(&[4]),
-            Sx::pair(Sx::atom(&[1]), Sx::pair(Sx::atom(&[1]), Sx::atom(&[k as u8]))),
+            Sx::pair(Sx::atom(&[1]), Sx::pair(Sx::atom(&[1]), Sx::atom(&puzzle_const(k)))),
             Sx::atom(&[1]),
         ])
     }
@@ -52,7 +93,7 @@ pub fn puzzle_output(k: usize, solution: &Sx) -> Sx {
     } else if k == PATH_SECOND {
         solution.rest().and_then(Sx::first).cloned().unwrap_or_else(Sx::nil)
     } else {
-        Sx::pair(Sx::pair(Sx::atom(&[1]), Sx::atom(&[k as u8])), solution.clone())
+        Sx::pair(Sx::pair(Sx::atom(&[1]), Sx::atom(&puzzle_const(k))), solution.clone())
     }
 }
 
@@ -163,7 +204,7 @@ impl ABundle {
 pub fn many_spends(rng: &mut Rng, n: usize) -> ABundle {
     let mut spends = vec![];
     for i in 0..n {
-        let k = rng.usize(NUM_PUZZLES);
+        let k = pick_puzzle(rng);
         let ph = puzzle(k).tree_hash();
         let parent = sha256(&[b"many", &(i as u64).to_be_bytes(), &rng.bytes(4)]);
         let amount = if rng.chance(1, 4) { u64::MAX - rng.below(4) } else { rng.below(1000) };
@@ -273,7 +314,7 @@ pub fn gen_bundle(rng: &mut Rng, p: &GenParams) -> ABundle {
         tags.push("paths-only".into());
     }
     for _ in 0..n {
-        let puzzle_idx = if paths_only { PATH_FIRST + rng.usize(2) } else { rng.usize(NUM_PUZZLES) };
+        let puzzle_idx = if paths_only { PATH_FIRST + rng.usize(2) } else { pick_puzzle(rng) };
         let puzzle_hash = puzzle(puzzle_idx).tree_hash();
         let amount = if big_amounts {
             u64::MAX - rng.below(8)
@@ -354,7 +395,7 @@ pub fn gen_bundle(rng: &mut Rng, p: &GenParams) -> ABundle {
         if !rng.chance(1, 3) || d.spends.len() >= p.max_spends + 2 {
             continue;
         }
-        let k = rng.usize(NUM_PUZZLES);
+        let k = pick_puzzle(rng);
         let ph = puzzle(k).tree_hash();
         let parent = d.spends[ci].coin_id();
         let own_amount = d.spends[ci].amount;
@@ -891,7 +932,7 @@ fn apply_defect(rng: &mut Rng, p: &GenParams, b: &mut ABundle) {
             // a coin whose parent is spent in this bundle but which that parent does NOT create
             // (amount off by one / other puzzle hash): not ephemeral
             let i = rng.usize(ns);
-            let k = rng.usize(NUM_PUZZLES);
+            let k = pick_puzzle(rng);
             let ph = puzzle(k).tree_hash();
             let amount = 1 + rng.below(1000);
             let parent = b.spends[i].coin_id();
